@@ -301,8 +301,9 @@ class atom(boolean.AndRestriction):
         elif self.version is not None:
             raise errors.MalformedAtom(orig_atom, "versioned atom requires an operator")
 
-        self._hash = hash(orig_atom)
         self.negate_vers = negate_vers
+        # hash what __eq__ compares; the original string differs for reordered USE deps
+        self._hash = hash(tuple(getattr(self, x) for x in self.__attr_comparison__))
 
     __getattr__ = klass.GetAttrProxy("_cpv")
     __dir__ = klass.DirProxy("_cpv")
